@@ -314,7 +314,12 @@ def make_task_class(spec, module_name='vgen'):
     meta['input_tasks'] = []  # filled by make_module once all classes exist
     if spec.get('abstract'):
         meta['abstract'] = True
-    Meta = type('Meta', (), meta)
+    if spec.get('meta_inherit'):
+        # everything but the name is declared in a base Meta class the task's Meta derives from
+        base_meta = type('CommonMeta', (), {k: v for k, v in meta.items() if k != 'name'})
+        Meta = type('Meta', (base_meta,), {'name': meta['name']})
+    else:
+        Meta = type('Meta', (), meta)
     cls_name = spec.get('cls_name') or ''.join(w.capitalize() for w in name.split('_')) + 'Task'
     base = spec.get('_base_cls') or Task
     cls = type(Task)(cls_name, (base,), {'Meta': Meta, 'run': run, '__module__': module_name, '_vspec': spec})
@@ -349,7 +354,9 @@ def make_module(specs, module_name):
                 cls.Meta.parameters.append(InputTaskParameter(target, **kw))
             else:
                 raise ValueError(how)
-        cls.Meta.input_tasks = its
+        (cls.Meta.__bases__[0] if spec.get('meta_inherit') else cls.Meta).input_tasks = its
+        if spec.get('meta_inherit') and 'input_tasks' in vars(cls.Meta):
+            del cls.Meta.input_tasks
         setattr(mod, cls.__name__, cls)
     mod.CLASSES = classes
     sys.modules[module_name] = mod
